@@ -71,7 +71,7 @@ prop("C05",
      [("T3", T.T3, K01, {"want_stream": True}), ("U1", T.U1, K01, {}), ("S2", S.S2, K01, {}), ("S3", S.S3, K01, {}),
       ("S5", S.S5, K01, {}), ("S7", S.S7, K01, {}), ("S4", S.S4, K01, {"liveness": True}),
       ("S6", S.S6, K01, {"roles_filter": ("READY", "DONE")}),
-      ("R3", B.R3, ("K0",), {"parts": ("structures", "counts")}), ("T5", T.T5, K01, {}), ("S1", S.S1, K01, {}), ("R4", B.R4, ("K0",), {}), ("N7", B.N7, K01, {}), ("T6", T.T6, K01, {}), ("A1", T.A1, K01, {})],
+      ("R3", B.R3, ("K0",), {"parts": ("structures", "counts")}), ("T5", T.T5, K01, {}), ("S1", S.S1, K01, {}), ("R4", B.R4, ("K0",), {}), ("N7", B.N7, K01, {}), ("T6", T.T6, K01, {}), ("A1", T.A1, K01, {}), ("U3", T.U3, K01, {})],
      K01,
      "Decides T3 on the stream poll closure (no return that may be Pending after a Ready(Some) from the done receiver without re-polling it), "
      "U1 (end-of-stream bookkeeping: countdown from node_count decremented on Ready(Some), both senders released at 0 and for the empty graph, "
@@ -128,7 +128,7 @@ prop("C11",
 prop("C12",
      [("D1", B.D1, K04, {}), ("D2", B.D2, K04, {}), ("D3", B.D3, K04, {}), ("D4", B.D4, K04, {}),
       ("K", B.C13_rules, K04, {}), ("E", B.C16_rules, K04, {}), ("R2", B.R2, K04, {"strict_order": True}), ("B3", B.B3, K04, {}),
-      ("D4e", lambda ctx: R.edge_eq_rule(ctx, "D4"), K04, {}), ("D1r", lambda ctx: B.rank_ord_rule(ctx, "D1"), K04, {}), ("ID", B.ID_rules, K04, {})],
+      ("D4e", lambda ctx: R.edge_eq_rule(ctx, "D4"), K04, {}), ("D1r", lambda ctx: B.rank_ord_rule(ctx, "D1"), K04, {}), ("ID", B.ID_rules, K04, {}), ("R1", B.R1, K04, {}), ("R7", B.R7, K04, {})],
      K04,
      "Decides D1 (ids listed in ascending id order and sorted by a stable sort whose comparator is ranks[first] vs ranks[second], ascending), "
      "D2 (the Data edge goes from the outer element to an element at a later position of the same sorted list), D3 (no hash-ordered container, "
@@ -152,7 +152,7 @@ prop("C13",
 
 prop("C16",
      [("E", B.C16_rules, ("K0", "K4"), {}), ("W1", B.W1, ("K0", "K4"), {}), ("R2", B.R2, ("K0", "K4"), {"strict_order": True}),
-      ("B3", B.B3, ("K0", "K4"), {}), ("N", ST.N_rules, ("K0",), {})],
+      ("B3", B.B3, ("K0", "K4"), {}), ("N", ST.N_rules, ("K0",), {}), ("ID", B.ID_rules, ("K0", "K4"), {})],
      ("K0", "K4"),
      "Decides E1 (add_logic_edge/add_contains_edge perform exactly one daggy::Dag::update_edge(from, to, const Logic|Contains) - directly or through crate-local helpers whose parameters are "
      "resolved at their call site - with the result returned unchanged), E2 (batch forms perform that same insertion once per element in array order, with the kind their name says, stop at and return the first error), "
@@ -174,7 +174,8 @@ prop("C07",
      [("F", R.F_rules, K01, {}), ("S6", S.S6, K01, {"roles_filter": ("RESULT",)}), ("T1", T.T1, K01, {"kinds": ("FAILED",)}),
       ("O4", R.O4, K01, {}), ("S7", S.S7, K01, {}),
       ("B1", S.opts_frame, K01, {"fields": ("StreamOrder",)}), ("B2", S.order_wiring, K01, {}),
-      ("R2", B.R2, ("K0",), {"strict_order": False}), ("R3", B.R3, ("K0",), {"parts": ("structures", "counts")}), ("S1", S.S1, K01, {}), ("R6", B.D2_coverage, ("K0",), {}), ("R1", B.R1, ("K0",), {})],
+      ("R2", B.R2, ("K0",), {"strict_order": False}), ("R3", B.R3, ("K0",), {"parts": ("structures", "counts")}), ("S1", S.S1, K01, {}), ("R6", B.D2_coverage, ("K0",), {}), ("R1", B.R1, ("K0",), {}), ("R7", B.R7, ("K0",), {}), ("ID", B.ID_rules, ("K0",), {}), ("E", B.C16_rules, ("K0",), {}),
+      ("A1", T.A1, K01, {}), ("N7", B.N7, K01, {}), ("L5", R.L5, K01, {}), ("P2", T.P2, K01, {}), ("T5", T.T5, K01, {})],
      K01,
      "Decides F1 (on the Err arm of the user future exactly one awaited send on the RESULT channel carries that error), F2 (from the Err arm every "
      "path to the done-send passes through the release of the done-sender), F3 (RESULT capacity monotone in node_count; its receiver is drained only "
@@ -186,7 +187,7 @@ prop("C07",
 
 prop("C08",
      [("I", R.I_rules, ("K1",), {}), ("S5", S.S5, ("K1",), {}), ("T1", T.T1, ("K1",), {"kinds": ("INTERRUPTED",)}), ("T4", T.T4, ("K1",), {}),
-      ("B1", S.opts_frame, ("K1",), {"fields": ("InterruptibilityState", "bool")}), ("S7", S.S7, ("K1",), {}), ("O3b", R.O3b, ("K1",), {}), ("O", R.O_rules, ("K1",), {}), ("S6b", S.S6b_bitsets, ("K1",), {}), ("P2", T.P2, ("K1",), {}), ("L6", R.L6, ("K1",), {})],
+      ("B1", S.opts_frame, ("K1",), {"fields": ("InterruptibilityState", "bool")}), ("S7", S.S7, ("K1",), {}), ("O3b", R.O3b, ("K1",), {}), ("O", R.O_rules, ("K1",), {}), ("S6b", S.S6b_bitsets, ("K1",), {}), ("P2", T.P2, ("K1",), {}), ("L6", R.L6, ("K1",), {}), ("A1", T.A1, ("K1",), {}), ("N7", B.N7, ("K1",), {}), ("L5", R.L5, ("K1",), {})],
      ("K1",),
      "Decides the wiring only: I1 (opts.interruptibility_state and interrupted_next_item_include flow unchanged from each public parameter - or from "
      "StreamOpts::default() - to the ready-stream wrapper; stream_with_interruptible passes the state to interruptible_with, stream/stream_with do not wrap), "
@@ -208,7 +209,9 @@ prop("C09",
 
 prop("C10",
      [("L1", R.L1, K01, {}), ("L2", R.L2, K01, {}), ("L3", R.L3, K01, {}), ("S6", S.S6, K01, {"roles_filter": ("READY",)}),
-      ("L4", R.L4, K01, {}), ("S2", S.S2, K01, {}), ("R3", B.R3, ("K0",), {"parts": ("structures", "counts")}), ("S1", S.S1, K01, {}), ("A1", T.A1, K01, {}), ("S4", S.S4, K01, {"liveness": True})],
+      ("L4", R.L4, K01, {}), ("S2", S.S2, K01, {}), ("R3", B.R3, ("K0",), {"parts": ("structures", "counts")}), ("S1", S.S1, K01, {}), ("A1", T.A1, K01, {}), ("S4", S.S4, K01, {"liveness": True}), ("S3", S.S3, K01, {}), ("S7", S.S7, K01, {}),
+      ("T1", T.T1, K01, {}), ("T5", T.T5, K01, {}), ("T6", T.T6, K01, {}), ("N7", B.N7, K01, {}), ("L5", R.L5, K01, {}), ("P2", T.P2, K01, {}),
+      ("A2", R.A2, K01, {}), ("R4", B.R4, ("K0",), {})],
      K01,
      "Decides L1 (`limit` flows unchanged from each of the 12 public parameters into StreamExt::for_each_concurrent's limit argument, whose stream is the READY stream) "
      "L2 (fold/try_fold paths are sequential - StreamExt::fold / try_fold or one `while let .. next().await` loop - and go on only after the user future's Ready arm), "
@@ -258,7 +261,7 @@ prop("C15",
 PROPS["C15"]["witnesses"] = [("c15", [], ""), ("c15", ["interruptible"], "")]
 
 prop("C20",
-     [("N", ST.N_rules, K01, {}), ("A1", T.A1, K01, {}), ("N6", B.N6, K01, {}), ("L4", R.L4, K01, {}), ("U1", T.U1, K01, {}), ("N7", B.N7, K01, {})],
+     [("N", ST.N_rules, K01, {}), ("A1", T.A1, K01, {}), ("N6", B.N6, K01, {}), ("L4", R.L4, K01, {}), ("U1", T.U1, K01, {}), ("N7", B.N7, K01, {}), ("U3", T.U3, K01, {})],
      K01,
      "Whole-property static argument (non-interference of simultaneous runs): N1-N5 as for C15 (nothing mutable is reachable through &FnGraph; no global state; all per-run state "
      "allocated per call; scheduling fields never written), plus FnGraph<F>: Sync for F: Send + Sync (shared runs from several threads), two shared-reference runs and a stream may be "
